@@ -220,6 +220,12 @@ func CheckSession(c SessCase) (vs hx.Vs, nontrivial bool, classes []string) {
 	defs := pgprog.Defs(c.Tables)
 	yaml := pgprog.SchemaYAML(c.Tables)
 	store := pgsess.NewStore(defs)
+	searchable := false // a searchable column anywhere puts the HMAC processor into every column's chain
+	for _, tb := range c.Tables {
+		for _, col := range tb.Cols {
+			searchable = searchable || (tb.Configured && col.Kind == pgprog.KSearch)
+		}
+	}
 	// plant the rows
 	planted := make([][][]plantedCell, len(c.Tables))
 	totalFire, totalOpen := 0, 0
@@ -247,6 +253,10 @@ func CheckSession(c SessCase) (vs hx.Vs, nontrivial bool, classes []string) {
 						// known finding missed:masked-column:record-overlapped-by-envelope-shaped-bytes (shown by TestPoisonColumn)
 						exp = expOpen
 						classes = append(classes, "excluded:masked-column-record-overlapped")
+					}
+					if exp == expFire && searchable && cutByHashLikePrefix(r) {
+						// the class of the fixed finding missed:search-column:record-cut-by-hash-like-prefix: asserted like any other
+						classes = append(classes, "record-cut-by-hash-like-prefix")
 					}
 					prow[ci] = plantedCell{r, exp}
 					where := "configured:" + col.Kind
